@@ -23,6 +23,7 @@ EXPLANATION = (
     "rank; end = ts + dur at the exits of parse-only and full load (typestate); cat/name are encoded through the id map of the very table that is returned "
     "and that was fed both columns' symbols; stream is int(stream) with fallback -1; stream / correlation specs have name == raw_name and default -1; "
     "load_traces indexes each frame by the id column without dropping it. The ijson back ends are not analysed (ijson absent)."
+    " Later additions: rank/file association of the loaders, the trim and its guard (shared with C12) as the only row removal, full-width time columns in the parser and in _align_all_ranks, integer-only coercion, ids handed out by the per-file table."
 )
 TP = "hta.common.trace_parser"
 TM = "hta.common.trace"
